@@ -89,7 +89,13 @@ TRegisterStart == /\ Ev("RegisterStart") /\ ~rgAct /\ R_Start(E.i)
 TRegisterEnd == /\ Ev("RegisterEnd") /\ rgAct /\ rgpc = "done" /\ rgarg = E.i /\ rgret = E.res
                 /\ rgAct' = FALSE /\ UNCHANGED <<vars, sdAct, bdAct>>
 (* what the client helpers report (C13): names in registration order *)
-TIntrospect == /\ Ev("Introspect") /\ E.names = names /\ E.fields_ok /\ UNCHANGED vars /\ KeepT
+(* "t.e" is registered by the harness when it creates the service object *)
+Reported == <<"org.varlink.service", "t.e">> \o g_regs
+TIntrospect == /\ Ev("Introspect")
+               /\ E.names = Reported /\ E.fields_ok /\ E.unlisted_ok
+               /\ E.descs = [k \in 1..Len(Reported) |-> "d:" \o Reported[k]]
+               /\ cst[E.c] = "handled"
+               /\ UNCHANGED vars /\ KeepT
 
 Silent ==
   /\ \/ D_GetL \/ L_SetRunning \/ L_Check \/ L_Refresh \/ L_Timeout \/ L_AccErr \/ L_Inc \/ L_Spawn \/ T_Wait
